@@ -174,7 +174,7 @@ pub fn run(mut chk: Check) -> ! {
         .into();
     chk.assumptions = vec!["refbin implements the specification (golden self-tests from the spec text run at start-up)".into()];
     chk.replay_files(dispatch);
-    let n = chk.scale(30_000, 1_000_000);
+    let n = chk.scale(400_000, 2_000_000);
     chk.campaign(CampaignCfg::new("forward", n), case_forward);
     chk.campaign(CampaignCfg::new("reverse", n), case_reverse);
     chk.campaign(CampaignCfg::new("serde_writer", n / 2), case_serde_writer);
